@@ -13,5 +13,6 @@ INVARIANTS
   ExitAgrees
   BoundCurrent
   NoCovNoDeviation
+  HitsAreRegistered
   EmitInv
 CHECK_DEADLOCK FALSE
